@@ -189,11 +189,40 @@ Definition final_obs (st : state) : string :=
   ++ " cur=" ++ (if Nat.eqb (st_cur st) global_id then "g" else "n")
   ++ " n=" ++ dec_of_Z (c_ntraces (st_cont st)).
 
+(** [try <cmd>]: an expected failure does not end the session; the session goes on
+    from the state the failing command left behind *)
+Definition run_try (toks : list string) (st : state) : string * option state :=
+  match toks with
+  | "load" :: p :: t :: _ =>
+      match str_arg p, str_arg t with
+      | Some path, Some tid =>
+          match wal_load path tid st with
+          | Er e st' => ("err " ++ err_token e, Some st')
+          | r => render pr_unit r
+          end
+      | _, _ => ("bad", None)
+      end
+  | "eval" :: fl :: r =>
+      match parse_val PF r with
+      | Some (e, r') =>
+          match parse_kw 1000 r' with
+          | Some kw =>
+              match wal_eval_with (flags_of fl) e kw st with
+              | Er e' st' => ("err " ++ err_token e', Some st')
+              | res => render pr_val res
+              end
+          | None => ("bad", None)
+          end
+      | None => ("bad", None)
+      end
+  | _ => ("bad", None)
+  end.
+
 Fixpoint run_cmds (cmds : list (list string)) (st : state) : string :=
   match cmds with
   | [] => "END " ++ final_obs st
   | c :: r =>
-      match run_cmd c st with
+      match (match c with "try" :: c' => run_try c' st | _ => run_cmd c st end) with
       | (s, Some st') => s ++ " ;; " ++ run_cmds r st'
       | (s, None) => s ++ " ;; STOP"
       end
